@@ -257,8 +257,35 @@ class _Sub(ast.NodeTransformer):
             return cf[node.attr]  # Ctor(a=X).a  is  X
         return node
 
+    def visit_Call(self, node: ast.Call) -> ast.AST:
+        self.generic_visit(node)
+        if any(isinstance(a, ast.Starred) for a in node.args):
+            # f(*T) with T a tuple / list display or a NamedTuple carrier built on this path: the elements are the arguments
+            args: t.List[ast.expr] = []
+            for a in node.args:
+                if isinstance(a, ast.Starred):
+                    v = a.value
+                    cf = _carrier_fields(v, self.mod)
+                    if isinstance(v, (ast.Tuple, ast.List)) and not any(isinstance(x, ast.Starred) for x in v.elts):
+                        args.extend(v.elts)
+                        continue
+                    if cf is not None and t.cast(ast.Constant, cf["__tuple__"]).value:
+                        params = t.cast(str, t.cast(ast.Constant, cf["__params__"]).value).split(",")
+                        if all(p_ in cf for p_ in params):
+                            args.extend(cf[p_] for p_ in params)
+                            continue
+                args.append(a)
+            node.args = args
+        return node
+
     def visit_Subscript(self, node: ast.Subscript) -> ast.AST:
         self.generic_visit(node)
+        v0 = node.value
+        if isinstance(node.ctx, ast.Load) and isinstance(node.slice, ast.Constant) and isinstance(node.slice.value, int):
+            if isinstance(v0, ast.Call) and isinstance(v0.func, ast.Name) and v0.func.id == "divmod" and len(v0.args) == 2 and not v0.keywords and node.slice.value in (0, 1):
+                return ast.copy_location(ast.BinOp(left=v0.args[0], op=ast.FloorDiv() if node.slice.value == 0 else ast.Mod(), right=v0.args[1]), node)
+            if isinstance(v0, (ast.Tuple, ast.List)) and not any(isinstance(x, ast.Starred) for x in v0.elts) and -len(v0.elts) <= node.slice.value < len(v0.elts):
+                return v0.elts[node.slice.value]
         cf = _carrier_fields(node.value, self.mod)
         if cf is not None and isinstance(node.slice, ast.Constant) and isinstance(node.slice.value, int) and t.cast(ast.Constant, cf["__tuple__"]).value:
             params = t.cast(str, t.cast(ast.Constant, cf["__params__"]).value).split(",")
